@@ -410,6 +410,7 @@ pub fn run(tier: Tier) -> i32 {
     let tier = Tier::Thorough;
     let ps = programs(tier);
     rep.set("rule", json!("Programs = loop/conditional form x body x wrapping. Forms: count 0..3 without and with loop-var under 5 start/step combinations (fractional, negative), while and until over a counter with bound 0/1/3, for over 4 data lists (literal, variable, single, strings) with and without idx-var, if with 4 tests. Bodies: all sequences of <= 2 (thorough 3) items from {shape relative to '^', shape using the loop variable, id built from the loop variable, text using it, accumulating <var>, <g> with a local, nested loop, nested if}. Wrapping: in <svg>, inside <g>, the construct twice in a row (state carried across). Each program is followed by a probe of all variables and a '^'-relative shape. The twin is produced by a mechanical unroller (iteration counts from the generator's own counter arithmetic); both are executed and the whitespace-insensitive canonical event streams (all elements, attributes, text, root viewBox/size) must be equal. Non-trivial = both Ok, equal, more than 8 events."));
+    rep.set("also_later", json!("Round 5 added pairs: a clipPath emptied by a control element, fractional loop steps and <for> items, a word break after an empty control element."));
     rep.set("also", json!("Also 7 hand-written (program, unrolling) pairs: <use> chains built by loop and for, a condition value below the output rounding, and four bodies containing a forward reference (if re-tested, var update repeated, while making fewer passes, references within one pass)."));
     let st = run_space(ps.len(), |i| check(&ps[i]));
     rep.set("programs", json!(ps.len()));
